@@ -3,6 +3,7 @@
 
 pub use arith_sa::{ABS, ADD, CEIL, DIV, DIV_EUCLID, DIV_EUCLID_INT, DIV_INT, FLOOR, INT, MUL, MUL_INT, NEG, NOPS, OP_NAMES, REM, REM_EUCLID, REM_EUCLID_INT, REM_INT, ROUND, ROUND_TE, ROUND_TO_ZERO, SUB};
 pub use arith_sa::{is_int_rhs, is_unary};
+pub use arith_sa::*;
 use vcore::out::{drive, Outs};
 
 pub fn exec(lay: u16, op: u16, a: u128, b: u128) -> Outs {
@@ -11,5 +12,14 @@ pub fn exec(lay: u16, op: u16, a: u128, b: u128) -> Outs {
         124..=252 => arith_sb::run(st, lay, op, a, b, outs),
         253..=376 => arith_ua::run(st, lay, op, a, b, outs),
         _ => arith_ub::run(st, lay, op, a, b, outs),
+    })
+}
+
+pub fn exec_program(lay: u16, a: u128, prog: &[(u16, u128, u128)], s: &str) -> Outs {
+    drive(&mut |st, outs| match lay {
+        0..=123 => arith_sa::run_program(st, lay, a, prog, s, outs),
+        124..=252 => arith_sb::run_program(st, lay, a, prog, s, outs),
+        253..=376 => arith_ua::run_program(st, lay, a, prog, s, outs),
+        _ => arith_ub::run_program(st, lay, a, prog, s, outs),
     })
 }
